@@ -17,9 +17,10 @@ CLAIM = dict(
          "parser_fuel_suffices), returns a tree or an error on every text outside the lexeme class the C12 model "
          "excludes (parse_returns_partial), never builds an Expected* error with an empty token list, never slices a "
          "package path out of order (package_path_slice_never_panics); every span of every returned tree (every AST "
-         "type, incl. doc comments) and of every error not reported at the end of the input lies inside the source on "
-         "character boundaries (spans_in_bounds_partial); the end-of-input span rule "
-         "violates the property on two computed witnesses (spans_in_bounds_refuted, replayed on the real parser); the "
+         "type, incl. doc comments) and of every returned error, those reported at the end of the input included, lies "
+         "inside the source on character boundaries (spans_in_bounds; lexer_span_in_bounds for the rule of Lexer::span; "
+         "the two texts on which the former byte-counting rule left the source are regression cases, "
+         "eof_span_witnesses_in_bounds); the "
          "parser has no depth guard: for every d a text of 2d+20 characters nests more than d activations of Expr::parse "
          "(depth_unbounded, with depth_is_recursion_depth: the model-level form of the stack overflow); the graph-layer no-panic theorems of C06 are "
          "restated. What a model cannot exhibit (exhaustion of the machine stack, allocation failure, non-termination or "
@@ -34,8 +35,8 @@ CLAIM = dict(
          "parser model is tied to the code on every run by a correspondence on the text inputs (tree with all spans, "
          "or error variant, expected tokens and span).",
     design_ref="DESIGN.md §5 C14, §7 items 7, 8, 17",
-    note="level proof, PARTIAL. Proved: lexer/parser panic-freedom, fuel bound, span bounds (except the end-of-input "
-         "rule, refuted), unbounded recursion depth, graph-layer corollaries. NOT proved, search only: stack exhaustion "
+    note="level proof, PARTIAL. Proved: lexer/parser panic-freedom, fuel bound, span bounds (all spans, incl. the "
+         "end-of-input rule), unbounded recursion depth, graph-layer corollaries. NOT proved, search only: stack exhaustion "
          "(found: Document::parse aborts on ~6k nested parentheses / ~15k nested list< in the harness build), "
          "resolution.rs / package.rs / encoding.rs panic-freedom (the search found twelve panic sites and one "
          "unbounded recursion: six repaired by fix: commits, the rest listed as known findings), wasmparser / wit-component / miette internals, allocation "
@@ -62,12 +63,6 @@ PROPOSED_KNOWN = [
          text="Document::parse (and, for trees that did parse, serialisation / drop) recurses once per nesting level of "
               "expressions and value types with no depth limit: deeply nested input overflows the stack and aborts the "
               "process (not catchable). A depth limit is a design decision for the maintainers"),
-    dict(property=PID, id="end-of-input-span", status="known", signature="span:eof-rule",
-         witness="`` (empty source): span (0,1) outside the source; `package a:b // é`: span (16,1) starts inside `é`",
-         text="Lexer::span() moves an end-of-input span to `start-1, length 1` counting BYTES: on the empty source the "
-              "diagnostic span lies outside the source, after a multi-byte character it starts/ends inside the "
-              "character (both still render). Small fix proposed: hooks/fix-c14-eof-span.patch (whole preceding "
-              "character; empty span on the empty source)"),
     dict(property=PID, id="resolve-imports-unwrap", status="known", signature="panic:encode:graph.rs:explicit-import-merge-unwrap",
          witness="corpus/C14/resolve-imports-unwrap.c14",
          text="explicit import `x:y/z@1.0.0` + implicit import `x:y/z@1.1.0` of an incompatible type: encode panics in "
@@ -355,7 +350,8 @@ def run(res, tier, seed, replay):
                 col_ok = len(b) - (b.rfind(b"\n") + 1) > 65535
             sig = "render-panic:miette:column>65535" if col_ok else None
         elif why.startswith("span not inside"):
-            # the end-of-input rule: an `eof` error whose span is outside an EMPTY source or inside a character
+            # the former end-of-input rule (finding end-of-input-span, fixed): an `eof` error whose span is outside an
+            # EMPTY source or inside a character; the classification only names the defect, it is no longer suppressed
             line, _, extra = obs.partition("\t")
             bad = extra.split(" ")[1]
             eof = extra.endswith(" eof")
